@@ -90,17 +90,18 @@ def run(tier="quick"):
                     v_ = X.const_val(x["ch"][1])
                     consts[nm_] = v_ if consts.get(nm_, v_) == v_ else None
         consts = {k_: v_ for k_, v_ in consts.items() if v_ is not None}
-        sib.append((f, r, stepeq.Step(f, r[1], r[2], consts)))
+        sib.append((r[3], r, stepeq.Step(r[3], r[1], r[2], consts)))
     ndec = nundec = 0
     diffs = []
     gdiffs = []
-    configs = [("step", cur, nxt, qu) for cur in stepeq.CLASSES for nxt in ("NUL",) + stepeq.CLASSES for qu in ("NUL", "DQ", "SQ")] + \
-              [("cont", cur, None, qu) for cur in ("NUL",) + stepeq.CLASSES for qu in ("NUL", "DQ", "SQ")]
+    # one outcome per configuration: the token ends here ("END": the loop condition fails or the body breaks out), or the step taken
+    configs = [("step", cur, nxt, qu) for cur in ("NUL",) + stepeq.CLASSES for nxt in ("NUL",) + stepeq.CLASSES for qu in ("NUL", "DQ", "SQ")
+               if not (cur == "NUL" and nxt != "NUL")]
     for cfg_ in configs:
         outs = []
         try:
             for f, r, st_ in sib:
-                outs.append(st_.run(r[0], cfg_[1], cfg_[2], cfg_[3]) if cfg_[0] == "step" else st_.continues(r[0], cfg_[1], cfg_[3]))
+                outs.append(st_.run(r[0], cfg_[1], cfg_[2], cfg_[3]))
         except stepeq.Undecided as e:
             nundec += 1
             chk.note("S3: configuration %s not decided: %s" % (cfg_, e))
@@ -108,23 +109,20 @@ def run(tier="quick"):
         ndec += 1
         if outs[0] != outs[1]:
             diffs.append((cfg_, outs))
-        want = stepeq.grammar_step(cfg_[1], cfg_[2], cfg_[3]) if cfg_[0] == "step" else stepeq.grammar_continues(cfg_[1], cfg_[3])
+        want = stepeq.grammar_step(cfg_[1], cfg_[2], cfg_[3]) if stepeq.grammar_continues(cfg_[1], cfg_[3]) else "END"
         for (f, r, st_), got in zip(sib, outs):
             if got != want:
                 gdiffs.append((f, r, cfg_, got, want))
+    def describe(o):
+        return "ends the token" if o == "END" else ("emits %s, advances %d, quote -> %s" % (list(o[0]), o[1], o[2]))
     NAMES = {"DQ": "a double quote", "SQ": "a single quote", "ESC": "a backslash", "DELIM": "a delimiter", "OTHER": "an ordinary character", "NUL": "the terminator"}
     f0, r0, _ = sib[0]
     f1, r1, _ = sib[1]
     if diffs:
         for cfg_, outs in diffs[:4]:
-            if cfg_[0] == "step":
-                what = "at %s followed by %s, %s: %s emits %s, advances %d, quote -> %s; %s emits %s, advances %d, quote -> %s" % (
-                    NAMES[cfg_[1]], NAMES[cfg_[2]], "outside quotes" if cfg_[3] == "NUL" else "inside %s quotes" % ("double" if cfg_[3] == "DQ" else "single"),
-                    f0.name, list(outs[0][0]), outs[0][1], outs[0][2], f1.name, list(outs[1][0]), outs[1][1], outs[1][2])
-            else:
-                what = "at %s %s: %s %s the token, %s %s it" % (
-                    NAMES[cfg_[1]], "outside quotes" if cfg_[3] == "NUL" else "inside quotes", f0.name, "continues" if outs[0] else "ends",
-                    f1.name, "continues" if outs[1] else "ends")
+            what = "at %s followed by %s, %s: %s %s; %s %s" % (
+                NAMES[cfg_[1]], NAMES[cfg_[2]], "outside quotes" if cfg_[3] == "NUL" else "inside %s quotes" % ("double" if cfg_[3] == "DQ" else "single"),
+                f0.name, describe(outs[0]), f1.name, describe(outs[1]))
             chk.ob("S3", f0.name, "step-agreement:%s/%s/%s" % (cfg_[1], cfg_[2], cfg_[3]), False, loc=f0.loc(r0[0]),
                    detail="the two scanners disagree on the per-character step " + what)
     else:
@@ -138,13 +136,12 @@ def run(tier="quick"):
                    detail="%s departs from the quoting grammar at %s%s, %s: it %s where the grammar %s" % (
                        f.name, NAMES[cfg_[1]], (" followed by " + NAMES[cfg_[2]]) if cfg_[2] else "",
                        "outside quotes" if cfg_[3] == "NUL" else "inside %s quotes" % ("double" if cfg_[3] == "DQ" else "single"),
-                       ("emits %s, advances %d, quote -> %s" % (list(got[0]), got[1], got[2])) if cfg_[0] == "step" else ("continues the token" if got else "ends the token"),
-                       ("emits %s, advances %d, quote -> %s" % (list(want[0]), want[1], want[2])) if cfg_[0] == "step" else ("continues" if want else "ends")))
+                       describe(got), describe(want)))
         else:
             chk.ob("S4", f.name, "step-grammar", True, loc=f.loc(f.body),
                    proof="every decided configuration takes the step the grammar prescribes (quotes group and are removed, a backslash makes a "
                          "following delimiter or the closing quote literal, the rest is copied)")
-    chk.count("step_configurations_decided", ndec, floor=100)
+    chk.count("step_configurations_decided", ndec, floor=90)
     chk.count("step_configurations_undecided", nundec)
     chk.count("word_loops", nitem, floor=3)
     chk.count("scanners", n, floor=5)
